@@ -180,6 +180,16 @@ pub fn run(a: &Args) {
     }
     // the four situations of the repository's own tests, then generated histories
     let (max_ev, max_keys) = if a.thorough { (3000, 2000) } else { (300, 50) };
+    // very many addresses inside one window (as a crowd behind PROXY headers or an IPv6 prefix produces): a key never seen
+    // before is admitted all the same, and a tracked one keeps its own budget
+    {
+        let mut evs: Vec<(u32, u64)> = (0..4300u32).map(|i| (i, u64::from(i) * 1000)).collect();
+        evs.push((100_000, 4_300_001)); evs.push((5, 4_300_002)); evs.push((100_000, 4_300_003)); evs.push((100_001, 4_300_004));
+        let h = Hist { limit: 3, d: 60 * S, evs };
+        let o = run_real(&h);
+        let j = judge(&h, &o, true);
+        cases.push(to_case(&h, &o, j, "grid:one-window:keys4300"));
+    }
     let mut n = 0;
     while n < a.cases {
         let grid = n % 2 == 0;
